@@ -638,6 +638,7 @@ func runHarness(verif, repo, harness string, req replayReq) ([]replayHit, string
 	if sub != "" {
 		pkgPath = "./" + sub
 	}
+	trimGoCache(filepath.Join(os.TempDir(), "verif-gocache"), 1<<30)
 	ov := filepath.Join(tmp, "overlay.json")
 	ob, _ := json.Marshal(map[string]interface{}{"Replace": repl})
 	os.WriteFile(ov, ob, 0o644)
@@ -701,4 +702,22 @@ func runReplayFile(verif, repo, prop string, cfg *PropConfig, path string) int {
 	}
 	fmt.Printf("REPLAY property=%s obligation=%s not reproduced on the current tree\n", prop, f.Obligation)
 	return 0
+}
+
+// trimGoCache removes the harness build cache when it has grown beyond limit bytes (every changed tree adds
+// its own test binaries; the cache is only a speed-up and is rebuilt on demand).
+func trimGoCache(dir string, limit int64) {
+	var total int64
+	filepath.Walk(dir, func(_ string, fi os.FileInfo, err error) error {
+		if err == nil && fi != nil && !fi.IsDir() {
+			total += fi.Size()
+			if total > limit {
+				return filepath.SkipAll
+			}
+		}
+		return nil
+	})
+	if total > limit {
+		os.RemoveAll(dir)
+	}
 }
